@@ -133,7 +133,7 @@ def step(p, op1, op2):
     return H.run(h, "harness.c19", "step", funcs=FUNCS, modules=MODS, bv=w, timeout_ms=300000)
 
 
-def equivalence(p, mix):
+def equivalence(p, mix, part="all"):
     """== is reflexive, symmetric, transitive and coincides with equality of denotation"""
     ec = _ec()
     a, b = CURVES[p]
@@ -152,16 +152,20 @@ def equivalence(p, mix):
             if mix == "affine":
                 Q = ec.Point(curve, x2, y2)
             reach("equivalence")
-            H.prove((P == P) == True, "reflexive")   # noqa: E712
-            pq, qp = (P == Q), (Q == P)
-            H.prove(sx_iff(pq, qp), "symmetric")
-            H.prove(sx_iff(pq, sand(x1 == x2, y1 == y2)), "== iff the denoted points are equal")
-            H.prove(sx_iff(P != Q, snot(sand(x1 == x2, y1 == y2))), "!= is the negation")
-            qr, pr = (Q == R), (P == R)
-            H.prove(sor(snot(sand(pq, qr)), pr), "transitive")
-            H.prove((P == ec.INFINITY) == False, "a finite point is not the identity")   # noqa: E712
-            H.prove(sx_iff((-P) == Q, sand(x1 == x2, (y1 + y2) % p == 0)), "-P == Q iff Q is the mirror point")
-            D1, D2 = P.double(), (-P).double()
+            pq = (P == Q)
+            if part in ("all", "basic"):
+                H.prove((P == P) == True, "reflexive")   # noqa: E712
+                qp = (Q == P)
+                H.prove(sx_iff(pq, qp), "symmetric")
+                H.prove(sx_iff(pq, sand(x1 == x2, y1 == y2)), "== iff the denoted points are equal")
+                H.prove(sx_iff(P != Q, snot(sand(x1 == x2, y1 == y2))), "!= is the negation")
+                H.prove((P == ec.INFINITY) == False, "a finite point is not the identity")   # noqa: E712
+            if part in ("all", "trans"):
+                qr, pr = (Q == R), (P == R)
+                H.prove(sor(snot(sand(pq, qr)), pr), "transitive")
+            if part in ("all", "neg"):
+                H.prove(sx_iff((-P) == Q, sand(x1 == x2, (y1 + y2) % p == 0)), "-P == Q iff Q is the mirror point")
+            D1, D2 = (P.double(), (-P).double()) if part in ("all", "neg") else (ec.INFINITY, ec.INFINITY)
             if D1 is not ec.INFINITY and D2 is not ec.INFINITY:
                 H.prove(sx_iff(D1 == D2, False) if False else sx_iff(D1 == D2, sand(D1.x() == D2.x(), D1.y() == D2.y())),
                         "2P == 2(-P) only if they are the same point")
@@ -200,7 +204,8 @@ def jobs(tier, seed):
     ps = (5,) if tier == "quick" else (5, 7)
     for p in ps:
         for mix in ("jacobi", "affine"):
-            js.append(Job("equiv/p%d/%s" % (p, mix), "harness.c19:equivalence", p=p, mix=mix))
+            for part in ("basic", "trans", "neg"):
+                js.append(Job("equiv/p%d/%s/%s" % (p, mix, part), "harness.c19:equivalence", p=p, mix=mix, part=part))
         for op1 in ("none", "scale", "to_affine", "xy", "double", "add", "eq", "neg", "mul2_table", "state"):
             for op2 in ("xy", "eq_fresh", "add", "mul3"):
                 if tier == "quick" and op2 in ("mul3", "add") and op1 not in ("scale", "mul2_table", "state"):
